@@ -147,6 +147,46 @@ def sweep(ctx, n):
                     fails.append({"key": f"unit-scale:{cls}:{sk}", "desc": f"{what} changes with the length unit (scale {sk}, rel. err {err:.2g}" + (f", built with {via}" if via != "plain" else "") + ")",
                                   "replay": {"class": cls, "scale": s, "excitation_factor": e, "params_at_scale_1": {a: np.asarray(v).tolist() for a, v in kw.items()},
                                              "observers_at_scale_1": obs.tolist(), "rel_err": err, "J_pattern_equal": bool(jpat)}})
+    # the same ARRANGEMENT written in another length unit: poses reached through the path machinery (position setter, move along a
+    # path, rotation about an anchor, a collection turned as a whole, a sensor with pixels turned about an anchor) scale like every
+    # other length — no absolute length (a rounding grid, an absolute tolerance) may enter there either
+    from scipy.spatial.transform import Rotation as R_
+    with warnings.catch_warnings():
+        warnings.simplefilter("ignore")
+        for j in range(max(6, n // 5)):
+            nps = np.random.default_rng(rng.randrange(2**31))
+            c1, c2 = CLASSES[j % len(CLASSES)], CLASSES[(3 * j + 1) % len(CLASSES)]
+            k1, k2 = params(c1, nps), params(c2, nps)
+            p1, p2, a1, a2, t, sp = (nps.uniform(-1.5, 1.5, 3) for _ in range(6))
+            ang, ax = nps.uniform(20, 160, 3), nps.normal(size=3)
+            Q1, Q2 = R_.random(rng=nps), R_.random(rng=nps)
+            px = nps.uniform(-0.2, 0.2, (2, 3))
+            sp = sp / np.linalg.norm(sp) * nps.uniform(7, 10)
+
+            def build(s_):
+                o1, o2 = ctor(c1)(**scaled(c1, k1, s_, 1.0)), ctor(c2)(**scaled(c2, k2, s_, 1.0))
+                o1.position = p1 * s_
+                o1.rotate_from_angax(ang, ax, anchor=a1 * s_)         # a path of three poses about an anchor
+                o2.move(np.array([p2, p2 + t, p2 - t]) * s_, start=0)
+                grp = magpy.Collection(o1, o2)
+                grp.rotate(Q1)                                       # children turn about the collection's position
+                grp.move(t * s_)
+                se = magpy.Sensor(position=sp * s_, pixel=px * s_)
+                se.rotate(Q2, anchor=a2 * s_)
+                return magpy.getB([o1, o2], se, squeeze=False), magpy.getH([o1, o2], se, squeeze=False)
+
+            rB, rH = build(1.0)
+            degs = np.array([{"Dipole": 3, "Circle": 1, "Polyline": 1}.get(c_, 0) for c_ in (c1, c2)], dtype=float)
+            for k in rng.sample(decades, 2):
+                s_ = 10.0**k
+                B, H = build(s_)
+                done += 1
+                f_ = (s_ ** degs)[:, None, None, None, None]
+                err = max(float(np.max(np.abs(B * f_ - rB)) / np.max(np.abs(rB))), float(np.max(np.abs(H * f_ - rH)) / np.max(np.abs(rH))))
+                worst["posed"] = max(worst.get("posed", 0.0), err if np.isfinite(err) else 1e300)
+                if not err < 1e-9:
+                    fails.append({"key": f"unit-scale:posed:1e{k}", "desc": f"an arrangement of {c1} + {c2} placed by position / move / rotate-about-anchor / collection rotation and read by a turned sensor "
+                                  f"changes with the length unit (scale 1e{k}, rel. err {err:.2g})", "replay": {"classes": [c1, c2], "scale": s_, "rel_err": err}})
     # proportionality to the excitation through the attribute views: after ANY assignment to magnetization / polarization — also one
     # that ended in an exception because the user turned warnings into errors (|M| < 2000 A/m triggers a deprecation warning) — the
     # fields are those of the excitation the object reports, i.e. those of a fresh body with that polarization
